@@ -61,9 +61,11 @@ func DecodeMeta(hdr BoxHeader, startPos uint64, r io.Reader) (Box, error) {
 func DecodeMetaSR(hdr BoxHeader, startPos uint64, sr bits.SliceReader) (Box, error) {
 	b := MetaBox{}
 	lookAheadData := make([]byte, 4)
-	err := sr.LookAhead(4, lookAheadData)
-	if err != nil {
-		return nil, fmt.Errorf("could not look ahead in Meta box")
+	if hdr.payloadLen() >= 8 { // Only look inside the box. A shorter payload cannot start with an hdlr box
+		err := sr.LookAhead(4, lookAheadData)
+		if err != nil {
+			return nil, fmt.Errorf("could not look ahead in Meta box")
+		}
 	}
 	var offset uint64 = 8
 	if bytes.Equal(lookAheadData, []byte("hdlr")) {
